@@ -24,6 +24,7 @@ import hlib  # noqa: E402
 import secsgem.secs  # noqa: E402
 
 EN, DIS, SEL, LOST, T3, DLY = ("en",), ("dis",), ("sel",), ("lost",), ("t3",), ("dly",)
+FAIL = ("fail",)  # fault: the socket refuses the next write (send_data returns False once)
 CON = ("con",)  # the transport connection comes up, no Select.req yet (connected but not selected)
 CFG = ("cfg",)  # the application changes the configured establish-communications delay (public settings setter)
 RX13 = ("rx", 1, 13, 1, "in", None)
@@ -36,8 +37,23 @@ def rx14(kind, commack):
     return ("rx", 1, 14, 0, kind, commack)
 
 
-RX14_ALL = [rx14(k, c) for k in ("match", "old", "foreign") for c in (0, 1, 63, None)]
-RX14_KEY = [rx14("match", 0), rx14("match", 1), rx14("match", 63), rx14("foreign", 0), rx14("old", 0)]
+# COMMACK of an inbound S1F14: a value, None = body that cannot be decoded, or a shape:
+#   "empty"  <L <B> <L>>        zero-length COMMACK: `.get()` is b"" != 0, a refusal
+#   "two"    <L <B 0 0> <L>>    two bytes where one is allowed: decode raises
+#   "nolist" <L [0]>            no COMMACK at all: the default value is not 0, a refusal
+SHAPES = {"empty": bytes.fromhex("010221000100"), "two": bytes.fromhex("0102210200000100"), "nolist": bytes.fromhex("0100")}
+
+
+def commack_sem(c):
+    """0 = accepted, None = undecodable (nothing happens), "refused" otherwise"""
+    if c in (None, "two"):
+        return None
+    return 0 if c == 0 else "refused"
+
+
+RX14_ALL = [rx14(k, c) for k in ("match", "old", "foreign") for c in (0, 1, 63, None)] + [rx14("match", c) for c in SHAPES] \
+    + [rx14("foreign", "empty")]
+RX14_KEY = [rx14("match", 0), rx14("match", 1), rx14("match", 63), rx14("foreign", 0), rx14("old", 0), rx14("match", "empty")]
 OTHER = [("rx", 1, 1, 1, "in", None), ("rx", 1, 1, 0, "in", None), ("rx", USER_CB[0], USER_CB[1], 1, "in", None),
          ("rx", 99, 1, 1, "in", None), ("rx", 1, 3, 1, "in", None), ("rx", 1, 0, 0, "in", None)]
 
@@ -54,6 +70,8 @@ def letter_name(lt):
 def s1f14_body(commack):
     if commack is None:
         return b"\xff\xff"
+    if commack in SHAPES:
+        return SHAPES[commack]
     return secsgem.secs.functions.SecsS01F14({"COMMACK": commack, "MDLN": []}).encode()
 
 
@@ -114,12 +132,15 @@ class Run:
                 raise
             except Exception as exc:  # noqa: BLE001
                 info["raised"] = type(exc).__name__
-        elif lt == CON:
-            rig.connect()
-        elif lt == SEL:
-            rig.select()
-        elif lt == LOST:
-            rig.lose()
+        elif lt == FAIL:
+            rig.c.refuse = 1
+        elif lt in (CON, SEL, LOST):
+            try:
+                {CON: rig.connect, SEL: rig.select, LOST: rig.lose}[lt]()
+            except Stuck:
+                raise
+            except Exception as exc:  # noqa: BLE001  (the protocol layer refuses the event: recorded, the history goes on)
+                info["raised"] = type(exc).__name__
         elif lt in (T3, DLY):
             # the pending timer of that kind that was armed first fires (there is at most one unless a stale one was left behind)
             live = rig.timers("_on_wait_cra_timeout" if lt == T3 else "_on_wait_comm_delay_timeout")
@@ -130,7 +151,8 @@ class Run:
         else:
             _, s, f, w, kind, c = lt
             real, abst = self.resolve_sys(kind)
-            token = f"rx:{s}:{f}:{w}:{abst}:{'-' if c is None else c}"
+            sem = commack_sem(c) if (s, f) == (1, 14) else c
+            token = f"rx:{s}:{f}:{w}:{abst}:{'-' if sem is None else (256 if sem == 'refused' and not isinstance(c, int) else c)}"
             info["sys"] = abst
             if rig.connected:  # not selected: the protocol layer answers Reject.req, the handler sees nothing
                 body = s1f14_body(c) if (s, f) == (1, 14) else b""
@@ -157,6 +179,8 @@ class Run:
                     info.setdefault("other_frames", []).append(f"S{hd.stream}F{hd.function}")
             elif e[0] in ("cb", "unk", "ws", "evt", "blk"):
                 outs.append(tuple(e))
+            elif e[0] == "refused":
+                info["refused"] = info.get("refused", 0) + 1
         t3_a, dl_a = self.timers()
         # a timer armed by this step must carry the duration that is configured now
         if t3_a and id(m._wait_cra_timer) != timers_before[0]:
@@ -205,8 +229,20 @@ def show_step(st):
 
 
 # ------------------------------------------------------------------------------------------------ direct oracle
+FAULT_CLASSES = ("established-after-loss", "reported-established-wrongly", "callback-while-not-established", "stale-timer",
+                 "event-without-establishment")
+
+
 def oracle(steps):
-    """The property text evaluated on a recorded history.  Returns [(class, what, step index)]."""
+    """The property text evaluated on a recorded history.  Returns [(class, what, step index)].
+    In a history with a refused write only the clauses that do not speak about frames are judged."""
+    bad = _oracle(steps)
+    if any(st["letter"] == FAIL for st in steps):
+        bad = [b for b in bad if b[0] in FAULT_CLASSES]
+    return bad
+
+
+def _oracle(steps):
     bad = []
     on_link: set[int] = set()  # ids of the S1F13 written on the current link
     last_id = None
@@ -232,7 +268,7 @@ def oracle(steps):
                 if not ok and sent:
                     klass = "c07-commack-denied-still-communicating"
                     why = f"inbound S1F13 answered with S1F14 COMMACK={sent[0][2]}, communication reported as established all the same"
-            elif lt[0] == "rx" and (lt[1], lt[2]) == (1, 14) and lt[5] == 0:
+            elif lt[0] == "rx" and (lt[1], lt[2]) == (1, 14) and commack_sem(lt[5]) == 0:
                 ok = st["info"]["sys"] in on_link_before
                 if not ok:
                     klass = "c07-s1f14-system-unchecked"
@@ -256,7 +292,7 @@ def oracle(steps):
         if st["link_before"] and st["link_after"]:
             if lt == T3 and before == "WAIT_CRA" and st["t3_before"] and not (after == "WAIT_DELAY" and st["dly_after"]):
                 bad.append(("no-retry", "reply timeout in WAIT_CRA did not start the establish-communications delay", i))
-            if (lt[0] == "rx" and (lt[1], lt[2]) == (1, 14) and lt[5] not in (0, None) and before == "WAIT_CRA"
+            if (lt[0] == "rx" and (lt[1], lt[2]) == (1, 14) and commack_sem(lt[5]) == "refused" and before == "WAIT_CRA"
                     and last_id is not None and st["info"]["sys"] == last_id and last_id in on_link_before
                     and not (after == "WAIT_DELAY" and st["dly_after"])):
                 bad.append(("no-retry" if after != "COMMUNICATING" else "established-on-refusal",
@@ -371,6 +407,14 @@ def gen_histories(rng, tier, search):
             if big or (role == "equipment" and bi in (1, 2)):
                 for idx in product(len(CLASSES_CON), 3):
                     out.append((role, 0, base + [variants(rng, CLASSES_CON[i]) for i in idx], "exh-con-3"))
+    # fault: the socket refuses a write shortly before the connection reports the loss (judged by the oracle only: the
+    # model has no refused writes)
+    for role in ("equipment", "host"):
+        for base in ([EN, SEL, rx14("match", 0)], [EN, SEL, RX13], [EN, SEL], [EN, SEL, T3]):
+            for trig in (OTHER[0], RX13, OTHER[3], T3, DLY):
+                for tail in ([], [SEL], [EN], [SEL, rx14("match", 0)]):
+                    out.append((role, 0, base + [FAIL, trig, LOST] + tail, "fault"))
+                    out.append((role, 0, base + [FAIL, trig, trig, LOST] + tail, "fault"))
     n_rand = 3000 if big else 500
     weights = [CON] * 3 + [EN] * 2 + [DIS] + [SEL] * 3 + [LOST] * 2 + [T3] * 3 + [DLY] * 3 + [RX13] * 2 + ["rx14"] * 5 + ["other"] * 3 + [CFG] * 2 + [RX13Z]
     # the configured delay changes, then an attempt fails; an S1F13 with system bytes 0: all words of length <= 2 from three prefixes
@@ -548,16 +592,19 @@ def main():
         for h, d in rec["stats"].items():
             for k, n in d.items():
                 res.bump(h, k, n)
-        if rec["rig"]:
-            res.violate("rig", "harness link flag differs from the HSMS connection state", case_of(role, ck, letters))
         for klass, why, i in rec["bad"]:
             seen_classes[klass] = seen_classes.get(klass, 0) + 1
             if seen_classes[klass] <= 3:
                 small = shrink(role, ck, letters[: i + 1], klass)
                 res.violate(klass, why, case_of(role, ck, small), None, show_step(run_history(role, ck, small).steps[-1]))
-        lines.append(history_tokens(role, ck, flags, rec["tokens"]))
-        cases.append(case_of(role, ck, letters))
-        answers.append(rec["answer"])
+        if rec["rig"] and seen_classes.get("link-state-not-followed", 0) < 3:
+            seen_classes["link-state-not-followed"] = seen_classes.get("link-state-not-followed", 0) + 1
+            res.violate("link-state-not-followed", "after the connection events of this history the HSMS connection state is not the one the "
+                        "connection reported (connected / selected / closed)", case_of(role, ck, letters))
+        if FAIL not in letters:
+            lines.append(history_tokens(role, ck, flags, rec["tokens"]))
+            cases.append(case_of(role, ck, letters))
+            answers.append(rec["answer"])
     for k, n in seen_classes.items():
         res.bump("oracle_findings", k, n)
     # ---- correspondence
